@@ -31,6 +31,7 @@ func C07(r *h.Run) {
 
 	c07GzipTruncated(r, rng.Fork("gzip-truncated"))
 	c07NilCompression(r)
+	c07ReceiveAfterFailure(r)
 	for i := 0; i < r.N(700, 9000); i++ {
 		proto := protos[rng.Intn(3)]
 		kind := kinds[rng.Intn(4)]
@@ -540,6 +541,63 @@ func c07NilCompression(r *h.Run) {
 						r.Fail(h.Failure{Key: "serve/no-op-option-changed-behaviour", Family: "nil_compression", What: "the documented no-op changed how the request is served", Input: in, Actual: fmt.Sprint(code, " calls=", calls, " got=", string(got))})
 					}
 				}
+			}
+		}
+	}
+}
+
+// c07ReceiveAfterFailure: a client-streaming handler that goes on calling Receive after it has
+// returned false (a "drain the rest" loop before returning): nothing behind the malformed frame
+// is handed to it, and the failure is what the peer sees.
+func c07ReceiveAfterFailure(r *h.Run) {
+	bads := map[string][]byte{
+		"undecodable payload":                  h.Frame(0, []byte{0xFF, 1, 2}),
+		"compressed flag without an encoding":  h.Frame(1, []byte{9, 9}),
+		"message beyond the read limit":        h.Frame(0, bytes.Repeat([]byte{3}, 40)),
+		"frame shorter than its prefix claims": h.FrameLie(0, 9, []byte{1, 2}),
+	}
+	for _, proto := range []string{"connect", "grpc", "grpcweb"} {
+		for what, bad := range bads {
+			cfg := envCfg{Proto: proto, Max: 16}
+			var seen [][]byte
+			late := 0
+			var finalErr error
+			handler := connect.NewClientStreamHandler("/verif.Svc/M", func(_ context.Context, s *connect.ClientStream[h.Raw]) (*connect.Response[h.Raw], error) {
+				for s.Receive() {
+					seen = append(seen, append([]byte(nil), s.Msg().B...))
+				}
+				for i := 0; i < 3; i++ { // drain: Receive keeps returning false
+					if s.Receive() {
+						late++
+						seen = append(seen, append([]byte(nil), s.Msg().B...))
+					}
+				}
+				finalErr = s.Err()
+				if finalErr != nil {
+					return nil, finalErr
+				}
+				return connect.NewResponse(&h.Raw{B: []byte("ok")}), nil
+			}, cfg.handlerOpts()...)
+			body := append(append(h.Frame(0, []byte{7}), bad...), h.Frame(0, []byte{5})...)
+			req := httptest.NewRequest("POST", "/verif.Svc/M", nil)
+			req.ProtoMajor, req.ProtoMinor = 2, 0
+			req.Body = h.NewChunkBody([][]byte{body}, h.FinCleanEOF)
+			req.Header.Set("Content-Type", cfg.contentType(false))
+			rec := httptest.NewRecorder()
+			timedOut, p := withWatchdog(5*time.Second, func() { handler.ServeHTTP(rec, req) })
+			in := map[string]any{"proto": proto, "kind": "client", "read_limit": 16, "request": "message {07}, then: " + what + ", then message {05}", "handler": "loops on Receive; after it returned false calls it three more times; returns Err()"}
+			r.Eval("receive_after_failure", fmt.Sprint(proto, what))
+			if timedOut || p != nil {
+				r.Fail(h.Failure{Key: "serve/hang-or-panic", Family: "receive_after_failure", What: fmt.Sprint("hang or panic: ", p), Input: in})
+				continue
+			}
+			code, _ := peerError(proto, "server", rec)
+			r.Sample("receive_after_failure", map[string]any{"in": in, "seen": hexList(seen), "late_receives_that_succeeded": late, "peer_code": code})
+			if late > 0 || len(seen) != 1 || !bytes.Equal(seen[0], []byte{7}) {
+				r.Fail(h.Failure{Key: "serve/undecodable-delivered", Family: "receive_after_failure", What: "after Receive had returned false a further Receive handed user code what lies behind the malformed frame", Input: in, Expected: []string{"07"}, Actual: hexList(seen)})
+			}
+			if finalErr == nil || code != "invalid_argument" {
+				r.Fail(h.Failure{Key: "serve/silent-success", Family: "receive_after_failure", What: "the malformed request did not reach the peer as invalid_argument", Input: in, Actual: fmt.Sprint("Err()=", finalErr, " peer=", code)})
 			}
 		}
 	}
